@@ -68,7 +68,7 @@ func freshContainer(v ssa.Value, depth int) bool {
 
 func checkC08(c *an.Ctx) {
 	c.Rule("C08.1", "ownership (E4): a store to Task.Env / .Variables / .Dir, or a mutating Set on a container held in those fields, is allowed only on an object or container the function itself allocated (constructor literal, value copy, fresh Merge/With/FromMap result); Task.WithEnv is API and must not be reachable from the scheduler, the config builders or the watcher")
-	c.Rule("C08.2", "pure combinators (E4): Variables.Merge and .With write only to a container allocated in the same activation")
+	c.Rule("C08.2", "pure combinators (E4): Variables.Merge and .With write only to a container allocated in the same activation; in the functions under them no append, element write or map write targets a slice or map that can share backing storage with an operand (loaded from an operand's field, re-sliced without a capacity limit, or parked in the result's field)")
 	c.Rule("C08.3", "layering (E5/E2): the runner caller of the scheduler runs a per-stage copy of the task whose Env is [Task.Env < Stage.Env], Variables [Task.Variables < Stage.Variables] and Dir = Stage.Dir when non-empty; Runner.Run receives that copy")
 	c.NotDecided = append(c.NotDecided, "sharing introduced by a caller handing one *Stage to two graphs", "containers reachable through other aliases than the three task fields")
 	p := c.P
@@ -245,6 +245,16 @@ func checkC08(c *an.Ctx) {
 		}
 	}
 
+	var combinators []*ssa.Function
+	for _, name := range []string{"Merge", "With"} {
+		if fn := p.Func("pkg/variables", "Variables", name); fn != nil {
+			combinators = append(combinators, fn)
+		}
+	}
+	if len(combinators) > 0 {
+		sharedStorageWrites(c, "C08.2", combinators)
+	}
+
 	stageLayering(c, "C08.3")
 }
 
@@ -284,10 +294,18 @@ func stageLayering(c *an.Ctx, rule string) {
 	}
 	builder := f
 	var alloc *ssa.Alloc
+	// every value that can reach the runner must be a copy built for this stage in this activation:
+	// a task taken from state kept across stages (a cache keyed by name, a field) is not provably this stage's
 	for _, src := range c.P.DeepSources(target, 3, false) {
 		if a, ok := src.(*ssa.Alloc); ok && an.TypeIs(a.Type(), "pkg/task", "Task") {
 			alloc = a
+			continue
 		}
+		if an.IsNilConst(src) {
+			continue
+		}
+		c.Bad(rule, an.Short(f)+":runs-copy", f.Pos(), "the task handed to Runner.Run can be %s, which is not a copy built for this stage in this activation: a task prepared elsewhere (a cache keyed by name, a shared field) can belong to another stage or graph", an.FieldProv(src))
+		return
 	}
 	if alloc != nil {
 		target = alloc
